@@ -21,8 +21,8 @@ func (h *OwaBiasListener) Spec_Identifier() string {
 
 func (h *OwaBiasListener) Spec_Merge(params model.MethodParameters, addition model.MethodParameters) model.MethodParameters {
 	oldParams := params.(owaParams)
-	newParams := additionAsOwaParams(addition)
-	return *oldParams.merge(&newParams)
+	newParams := Spec_additionAsOwaParams(addition)
+	return *oldParams.Spec_merge(&newParams)
 }
 
 func Spec_additionAsOwaParams(addition model.MethodParameters) owaParams {
@@ -51,9 +51,9 @@ func (h *OwaBiasListener) Spec_OnCriterionAdded(
 	generator utils.ValueGenerator,
 ) model.MethodParameters {
 	owaPar := params.(owaParams)
-	referenceCriterionValue := owaPar.find(referenceCriterion)
+	referenceCriterionValue := owaPar.Spec_find(referenceCriterion)
 	newWeight := generator() * referenceCriterionValue.Weight
-	return model.SingleWeight(criterion, newWeight)
+	return model.Spec_SingleWeight(criterion, newWeight)
 }
 
 func (h *OwaBiasListener) Spec_OnCriteriaRemoved(
@@ -63,12 +63,12 @@ func (h *OwaBiasListener) Spec_OnCriteriaRemoved(
 	owaPar := params.(owaParams)
 	newWeights := make(model.WeightedCriteria, len(*leftCriteria))
 	for i, c := range *leftCriteria {
-		newWeights[i] = *owaPar.find(&c)
+		newWeights[i] = *owaPar.Spec_find(&c)
 	}
 	return owaParams{Weights: &newWeights}
 }
 
 func (h *OwaBiasListener) Spec_RankCriteriaAscending(params *model.DecisionMakingParams) *model.WeightedCriteria {
-	weights := *model.PrepareCumulatedWeightsMap(params, model.WeightIdentity)
-	return params.Criteria.SortByWeights(weights)
+	weights := *model.Spec_PrepareCumulatedWeightsMap(params, model.Spec_WeightIdentity)
+	return params.Criteria.Spec_SortByWeights(weights)
 }
